@@ -532,6 +532,26 @@ pub fn format_absolute_path(path_buf: &Path) -> String {
     path
 }
 
+/// Pipes, sockets and device nodes are never opened to look at their content or attributes:
+/// opening a FIFO blocks until a writer appears and reading a device may never reach the end.
+pub fn is_content_readable(path: &Path) -> bool {
+    #[cfg(unix)]
+    {
+        use std::os::unix::fs::FileTypeExt;
+
+        if let Ok(metadata) = fs::metadata(path) {
+            let file_type = metadata.file_type();
+            return !(file_type.is_fifo()
+                || file_type.is_socket()
+                || file_type.is_char_device()
+                || file_type.is_block_device());
+        }
+    }
+
+    let _ = path;
+    true
+}
+
 pub fn get_metadata(entry: &DirEntry, follow_symlinks: bool) -> Option<Metadata> {
     let metadata = match follow_symlinks {
         false => entry.metadata(),
